@@ -776,7 +776,7 @@ def _lazy_attrs(trees):
                 # it has just built
                 def built_here(fn_node, name):
                     return any(isinstance(a, ast.Assign) and any(isinstance(t, ast.Name) and t.id == name for t in a.targets) and
-                               isinstance(a.value, ast.Call) and isinstance(a.value.func, ast.Name) and a.value.func.id[:1].isupper()
+                               isinstance(a.value, ast.Call) and isinstance(a.value.func, ast.Name)     # Cls(...) or a class-valued variable
                                for a in ast.walk(fn_node))
                 protocol = False
                 for _, t2 in trees:
